@@ -36,7 +36,7 @@ Proof. reflexivity. Qed.
 (* a plain integer is not a valid site of (transfer full) *)
 Example transfer_on_int_invalid :
   let sl := {| sl_is_return := false; sl_name := s "x"; sl_kind := KdFund (s "gint"); sl_raw_ctype := s "gint";
-               sl_direction := DIn; sl_caller_allocates := false; sl_transfer := Some TNone; sl_nullable := false;
+               sl_direction := DIn; sl_dir_unset := false; sl_caller_allocates := false; sl_transfer := Some TNone; sl_nullable := false;
                sl_not_nullable := false; sl_optional := false; sl_skip := false; sl_scope := None; sl_closure := None;
                sl_destroy := None; sl_attrs := [] |} in
   apply_transfer sl [(s "transfer", [(s "full", None)])] = (sl, [WTransfer]).
@@ -240,7 +240,7 @@ Qed.
 (* the defect that was repaired: before the fix (fx = false) *)
 Definition out_ptr_slot : slot :=
   {| sl_is_return := false; sl_name := s "v"; sl_kind := KdFund (s "gint"); sl_raw_ctype := s "gint*";
-     sl_direction := DOut; sl_caller_allocates := false; sl_transfer := Some TFull; sl_nullable := false;
+     sl_direction := DOut; sl_dir_unset := false; sl_caller_allocates := false; sl_transfer := Some TFull; sl_nullable := false;
      sl_not_nullable := false; sl_optional := false; sl_skip := false; sl_scope := None; sl_closure := None;
      sl_destroy := None; sl_attrs := [] |}.
 Lemma not_optional_refuted_before_fix :
@@ -457,8 +457,8 @@ Proof.
   - cbn [first_named]. rewrite E. exact IH.
 Qed.
 
-Lemma length_param_follows d n ps p :
-  first_named n (on_named n (follow_direction d) ps) = Some p ->
+Lemma length_param_follows d u n ps p :
+  first_named n (on_named n (follow_direction d u) ps) = Some p ->
   sl_direction p = d /\ (d = DOut -> sl_transfer p = Some TFull).
 Proof.
   rewrite first_named_on_named by reflexivity.
@@ -505,10 +505,10 @@ Proof.
     inversion Hstep; subst ps' ws'; clear Hstep.
     assert (L : (i < List.length ps1)%nat) by (apply nth_error_Some; congruence).
     pose proof (nth_error_set_nth sl2 ps1 i L) as Hset.
-    destruct (on_named_nth n (follow_direction (sl_direction sl2)) _ _ _ Hset) as [G|G].
+    destruct (on_named_nth n (follow_direction (sl_direction sl2) (sl_dir_unset sl2)) _ _ _ Hset) as [G|G].
     + exists sl2. split; [exact G|]. apply length_param_follows in Hlp. destruct Hlp as [Hd Ht].
       split; [exact Hd|]. intros Ho. apply Ht. exact Ho.
-    + exists (follow_direction (sl_direction sl2) sl2). split; [exact G|]. apply length_param_follows in Hlp.
+    + exists (follow_direction (sl_direction sl2) (sl_dir_unset sl2) sl2). split; [exact G|]. apply length_param_follows in Hlp.
       destruct Hlp as [Hd Ht]. split; [rewrite Hd; reflexivity|]. intros Ho. apply Ht. exact Ho.
   - inversion Hstep; subst. rewrite Harr in Hi. clear -Hi E1 E2 Harr.
     exfalso. destruct cb.
@@ -561,7 +561,7 @@ Proof.
       assert (L : (i < List.length ps1)%nat) by (apply nth_error_Some; congruence).
       pose proof (nth_error_set_nth sl2 ps1 i L) as Hset.
       destruct lside as [n0|]; [|congruence].
-      destruct (on_named_nth n0 (follow_direction (sl_direction sl2)) _ _ _ Hset) as [G|G]; congruence.
+      destruct (on_named_nth n0 (follow_direction (sl_direction sl2) (sl_dir_unset sl2)) _ _ _ Hset) as [G|G]; congruence.
     - inversion Hstep; subst. congruence. }
   exact (step_length_follows fx e cb ps ws i a ps' ws' n arr lp Hstep Harr
            (fun sl1 => apply_common_length fx e sl1 a aopts n H1 H2) Hi Hlp).
